@@ -25,7 +25,9 @@ SumSeq(f, n) == IF n = 0 THEN 0 ELSE f[n] + SumSeq(f, n - 1)
 -----------------------------------------------------------------------------
 (* ------------------------------- P ------------------------------------- *)
 (* kinds of observable events: "next" (a selection, with the selected message), perturbations        *)
-PertKinds == {"setprio", "addback", "addfront", "conduse", "readd"}
+PertKinds == {"setprio", "addback", "addfront", "conduse", "readd", "replace"}
+(* "replace" (a definition with the same key read again, MessageMap::add(..., replace)): removal of the old instance plus a newly
+   added poll message - like "readd" the message starts a new wait, with the priority of the new definition *)
 (* "reload" (all messages new) and "otherclear" (another MessageMap instance cleared/reloaded/destroyed: no event of this map,
    its obligations run on unchanged) are handled separately *)
 
@@ -86,11 +88,11 @@ MonSelect(mon, sel, prio, K) ==
 (* message and starts a new wait.                                                                      *)
 MonPerturb(mon, kind, who, prio, K) ==
   LET A == Active(prio)
-      fresh(m) == m \notin A \/ (kind = "readd" /\ m = who) IN
+      fresh(m) == m \notin A \/ (kind \in {"readd", "replace"} /\ m = who) IN
   [wait |-> TLCEval([m \in DOMAIN mon.wait |-> IF fresh(m) \/ (m # who /\ mon.pert[m] >= K) THEN 0 ELSE mon.wait[m]]),
    pert |-> TLCEval([m \in DOMAIN mon.pert |-> IF fresh(m) THEN 0 ELSE IF m = who THEN mon.pert[m] ELSE Min2(mon.pert[m] + 1, K + 1)]),
    cnt |-> TLCEval([m \in DOMAIN mon.cnt |-> 0]),
-   mx |-> MxStep(mon, prio, IF kind = "readd" THEN who ELSE 0), lo |-> LoStep(mon, prio, IF kind = "readd" THEN who ELSE 0),
+   mx |-> MxStep(mon, prio, IF kind \in {"readd", "replace"} THEN who ELSE 0), lo |-> LoStep(mon, prio, IF kind \in {"readd", "replace"} THEN who ELSE 0),
    hi |-> Max2(mon.hi, MaxPrio(prio))]
 
 (* a reload of the map: every message is a new message *)
@@ -179,7 +181,8 @@ NextF(s) ==
 (* TRUE selects the design before that repair (the instance keeps order 0 and has to catch up), kept   *)
 (* for the design-level comparison (MC_Poll_readd_pinned.cfg).                                          *)
 NewOrder(s, p0, pinned) == IF pinned \/ p0 = 0 THEN 0 ELSE s.g + p0
-(* MessageMap::remove + reading the definition again                                                   *)
+(* MessageMap::remove + reading the definition again; also MessageMap::add(..., replace = TRUE) of a    *)
+(* definition with the same key and priority p0 (it removes the old instance first)                     *)
 ReAddF(s, m, p0, pinned) ==
   LET s1 == [s EXCEPT !.vec = IF s.prio[m] > 0 THEN Erase(s.vec, m) ELSE s.vec,
                       !.ord[m] = NewOrder(s, p0, pinned), !.prio[m] = p0, !.lp[m] = 0, !.used[m] = FALSE] IN
